@@ -39,6 +39,10 @@ CONSTANTS
   Maxes,         \* set of `max_count` values for Prune
   Ticks,         \* set of clock increments
   MaxEnv, MaxCrash, MaxRuns, MaxPrunes, Pad,
+  MaxReads,      \* extension (readers): number of Read actions per behaviour
+  SplitRead,     \* BOOLEAN: FALSE = a reader call is atomic (issued between two
+                 \* ZooKeeper writes of the archiver); TRUE = snapshots first, live
+                 \* nodes later, as AppTraceLoop.run does - exposes the race (NOTES)
   TickInListing, \* BOOLEAN: may the clock advance between the /scheduled
                  \* snapshot and the end of the listing (see NOTES: a run is
                  \* assumed to be shorter than the expiry)
@@ -59,10 +63,13 @@ NInst == Len(InstSeq)
 AllInsts == {InstSeq[j] : j \in 1..Len(InstSeq)} \cup NewInsts
 NInit == Cardinality(InitIds)
 
+(* extension (readers): ghost of the last read *)
+NoRead == [inst |-> "-", cnt |-> <<>>, ncrash |-> 0, window |-> {}, gone |-> {}]
+
 Init == st = [now |-> Now0, live |-> {}, known |-> {}, sched |-> {}, eversched |-> {},
               snaps |-> {}, nextseq |-> 0, pruned |-> {}, pbefore |-> {}, pmax |-> 0,
               pruneok |-> TRUE, seeded |-> 0, nenv |-> 0, ncrash |-> 0, nruns |-> 0,
-              nprunes |-> 0, pad |-> 0]
+              nprunes |-> 0, pad |-> 0, nreads |-> 0, rd |-> NoRead, rpart |-> NoRead]
             @@ [Volatile EXCEPT !.pc = "setup"]
 
 (* ---- population ---------------------------------------------------------- *)
@@ -175,6 +182,42 @@ Tick(d) ==
   /\ EnvOk /\ d \in Ticks /\ (st.pc # "listing" \/ TickInListing)
   /\ st' = [st EXCEPT !.now = @ + d, !.nenv = @ + 1]
 
+(* ---- extension: the readers ------------------------------------------------ *)
+(* download_batch over every snapshot + the live children (trace, server);     *)
+(* the finished-history query + the /finished children.  cnt[e] = how often    *)
+(* the reader is handed event e.                                               *)
+ReadObjs == {EvInst[id] : id \in InitIds \cup SpareIds}
+InSnaps(e) == Cardinality({s \in st.snaps : e \in s.evs})
+EvsOf(i) == {e \in st.known : e.inst = i}
+(* uploaded and not yet deleted: the upload -> delete window of the current batch *)
+Window == IF st.pc = "deleting" /\ st.up THEN {st.pend[x] : x \in DOMAIN st.pend} ELSE {}
+
+(* events whose only snapshots were removed by Prune (its purpose) *)
+GoneOf(i) == {e \in EvsOf(i) : e \notin st.live /\ InSnaps(e) = 0
+                               /\ \E s \in st.pruned : e \in s.evs}
+
+Read(i) ==
+  /\ ~SplitRead /\ st.pc # "setup" /\ st.nreads < MaxReads /\ i \in ReadObjs
+  /\ st' = [st EXCEPT !.nreads = @ + 1,
+                      !.rd = [inst |-> i, ncrash |-> st.ncrash, window |-> Window,
+                              cnt |-> [e \in EvsOf(i) |-> InSnaps(e) + (IF e \in st.live THEN 1 ELSE 0)],
+                              gone |-> GoneOf(i)]]
+
+ReadHist(i) ==
+  /\ SplitRead /\ st.pc # "setup" /\ st.nreads < MaxReads /\ i \in ReadObjs
+  /\ st.rpart.inst = "-"
+  /\ st' = [st EXCEPT !.nreads = @ + 1,
+                      !.rpart = [NoRead EXCEPT !.inst = i, !.cnt = [e \in EvsOf(i) |-> InSnaps(e)]]]
+
+ReadLive ==
+  /\ st.rpart.inst # "-"
+  /\ LET i == st.rpart.inst
+         h(e) == IF e \in DOMAIN st.rpart.cnt THEN st.rpart.cnt[e] ELSE 0 IN
+     st' = [st EXCEPT !.rpart = NoRead,
+                      !.rd = [inst |-> i, ncrash |-> st.ncrash, window |-> Window,
+                              cnt |-> [e \in EvsOf(i) |-> h(e) + (IF e \in st.live THEN 1 ELSE 0)],
+                              gone |-> GoneOf(i)]]
+
 (* filler so that bounded behaviours reach the simulation depth *)
 Idle ==
   /\ st.pc = "idle" /\ st.pad < Pad /\ st.nruns = MaxRuns
@@ -197,6 +240,9 @@ Next ==
   \/ \E i \in AllInsts : Unschedule(i)
   \/ \E d \in Ticks : Tick(d)
   \/ Idle
+  \/ \E i \in ReadObjs : Read(i)
+  \/ \E i \in ReadObjs : ReadHist(i)
+  \/ ReadLive
 
 Spec == Init /\ [][Next]_vars
 
@@ -229,6 +275,22 @@ InvPruneNewest ==
   /\ st.pruneok
   /\ \A p \in st.pruned, s \in st.snaps : p.seq < s.seq
   /\ (st.pc = "pruning" => TopN(st.pbefore, st.pmax) \subseteq Seqs(st.snaps))
+
+(* Extension beyond C18: what a reader issued at ANY point of an archiving run  *)
+(* (between any two writes) is handed.  Never zero times (events whose only    *)
+(* snapshot was pruned excepted); without a crash exactly once, and exactly    *)
+(* twice inside the upload -> delete window of the batch being moved (the      *)
+(* snapshot is created before the nodes are deleted: duplicates instead of     *)
+(* gaps); every crash of the archiver can leave one more copy behind (the      *)
+(* restarted run uploads the not yet deleted part of the batch again), for     *)
+(* good - the raw readers do not de-duplicate, AppTraceLoop does (NOTES).      *)
+InvReadNeverZero ==
+  st.rd.inst # "-" => \A e \in DOMAIN st.rd.cnt : e \in st.rd.gone \/ st.rd.cnt[e] >= 1
+InvReadWindow ==
+  st.rd.inst # "-" /\ st.rd.ncrash = 0 =>
+    \A e \in DOMAIN st.rd.cnt \ st.rd.gone : st.rd.cnt[e] = (IF e \in st.rd.window THEN 2 ELSE 1)
+InvReadBound ==
+  st.rd.inst # "-" => \A e \in DOMAIN st.rd.cnt : st.rd.cnt[e] <= 2 + st.rd.ncrash
 
 TypeOK == st.pc \in {"setup", "idle", "listing", "batching", "uploading", "deleting", "pruning"}
 =============================================================================
